@@ -34,6 +34,8 @@ pub mod persistence;
 pub mod range;
 pub mod recovery;
 pub mod ttl;
+#[cfg(feoxdb_verif)]
+pub mod verif;
 
 pub(super) struct VersionClock {
     hasher: RandomState,
